@@ -15,7 +15,8 @@
      M w                                         is w in Tables_f24.dict_nonsimple_entries (rebuilt entries that are not simple words)? 1 / 0
      NC                                          length of dict_nonsimple_entries
      B w                                         simple_wordb / alnum_wordb under the R tables: e.g. "01"
-     S item ; item ; ..                          C06Sentence.run_sentence under the R tables; item = "w cps" | "s n" | "p cp";
+     S item ; item ; ..                          C06Sentence.run_sentence (last item `p 46`: C06SentenceDot.run_sentence_dot on the
+                                                 items before it) under the R tables; item = "w cps" | "s n" | "p cp";
                                                  prints "N" (not a sentence of the class) | "text cps | all token spans | word spans" *)
 (* N -> 16 hex digits (dict_digest does not fit OCaml's 63-bit int) *)
 let hex_of_n (x : n) : string =
@@ -154,7 +155,21 @@ let () =
           | ["p"; c] -> SPunct (n_of_int (int_of_string c))
           | _ -> failwith "bad item" in
         let its = List.map item_of (nonempty (split_on ';' body)) in
-        (match run_sentence (uni_now ()) its with
+        (* phase 6: an item list that ends with the item `p 46` is a sentence with a final period (C06SentenceDot.run_sentence_dot) *)
+        (* phase 6, step 2: an item list with an apostrophe item (p 39 / p 8217) is a sentence with contractions: the triples
+           w ; p apostrophe ; w are grouped greedily from the left into CC items (C06SentenceContr.run_sentence_contr) *)
+        let is_apos = function SPunct c -> (int_of_n c = 39 || int_of_n c = 8217) | _ -> false in
+        let rec group = function
+          | SWord w1 :: (SPunct q as a) :: SWord w2 :: t when is_apos a -> CC (w1, q, w2) :: group t
+          | SWord w :: t -> CW w :: group t
+          | SSpace k :: t -> CS k :: group t
+          | SPunct c :: t -> CP c :: group t
+          | [] -> [] in
+        let run =
+          match List.rev its with
+          | SPunct c :: front when int_of_n c = 46 -> run_sentence_dot (uni_now ()) (List.rev front)
+          | _ -> if List.exists is_apos its then run_sentence_contr (uni_now ()) (group its) else run_sentence (uni_now ()) its in
+        (match run with
          | None -> print_endline "N"
          | Some ((txt, ts), ws) ->
              print_endline (String.trim (line_of_text txt) ^ " | " ^ (if ts = [] then "-" else show_spans ts)
